@@ -155,3 +155,55 @@ def solve_outcomes(repo):
         if ran:
             out[-1] = out[-1] + (solution_kwargs,)
     return out
+
+
+def terminal_info_fields(repo):
+    """Device.terminal_info followed (pvs/smallstep.py; private helpers and NamedTuple carriers included) for a device with one
+    terminal `T`: the fields of the TerminalInfo it builds, as rendered symbolic expressions {field: text}."""
+    from .smallstep import Record, follow_private_methods, module_constants
+    DEVICE = "tdgl.device.device"
+    f = repo.func(DEVICE, "Device.terminal_info")
+    D = repo.cls(DEVICE, "Device")
+
+    from .run_trace import _RunMachine, RunTrace
+
+    class _M(_RunMachine):                    # attributes the method stores on self are real state (a remembered result)
+        def iterate(self, v, node):
+            if isinstance(v, Opaque) and v.text == "self.terminals":
+                return [Opaque("T")]
+            return super().iterate(v, node)
+
+    def attrs(text):
+        if text.startswith("self._") and text.count(".") == 1:
+            return None                       # a fresh device: nothing remembered in private attributes
+        return NotImplemented
+    env = dict(module_constants(f.module.tree))
+    env["self"] = Opaque("self")
+    m = _M(env, attrs, follow_private_methods(D), fuel=16, undecided=lambda t: None)
+    m.self_state, m.trace = {}, RunTrace({})
+    kind, val = m.run_function(f.node)
+    if kind != "return":
+        raise AnalysisError(f"Device.terminal_info raises {val} in the model")
+    while isinstance(val, Opaque) and val.parts and val.parts[0] == "call" and val.parts[1] in ("tuple", "list", "sorted") and val.parts[2]:
+        val = val.parts[2][0]                # the order of the terminals is not what is read here
+    items = list(val) if isinstance(val, (list, tuple)) else None
+    if not items or len(items) != 1:
+        raise AnalysisError(f"Device.terminal_info does not return one TerminalInfo per terminal in the model ({render(val)[:80]})")
+    ti = items[0]
+    if isinstance(ti, Record):
+        return {k: render(v) for k, v in ti.values.items()}
+    if isinstance(ti, Opaque) and ti.parts and ti.parts[0] == "call" and ti.parts[1].split(".")[-1] == "TerminalInfo":
+        C = repo.cls(DEVICE, "TerminalInfo")
+        import ast as _ast
+        names = [s.target.id for s in C.node.body if isinstance(s, _ast.AnnAssign)]
+        out = dict(zip(names, (render(a) for a in ti.parts[2])))
+        out.update({k: render(v) for k, v in ti.parts[3].items()})
+        return out
+    raise AnalysisError(f"Device.terminal_info returns {render(ti)[:80]} per terminal in the model")
+
+
+def symbolic_text(t: str) -> str:
+    """rendered value of the machine as compact source-like text: `(a Mult b)` -> `(a*b)`, no blanks"""
+    for name, sym in (("Mult", "*"), ("Add", "+"), ("Sub", "-"), ("Div", "/"), ("Pow", "**"), ("MatMult", "@")):
+        t = t.replace(f" {name} ", sym)
+    return t.replace(" ", "")
